@@ -14,7 +14,8 @@
 # Why not 100-item buckets: one iteration of `(a..b).find_map(closure)` costs CBMC ~4000 SSA steps, every read at the
 # symbolic loop index is a 100-way multiplexer, and a single property then needs > 5 min of SAT time (tried: minisat,
 # cadical, kissat, 3 markers instead of symbolic contents, stubs for the inner functions, a loop-free 100-item model of
-# find_bit_in_bucket as stub for owner_of: the pure "first set bit of 3200 symbolic bits" query alone exceeds 280 s). The iterator-chain logic under
+# find_bit_in_bucket as stub for owner_of: the pure "first set bit of 3200 symbolic bits" query alone exceeds 280 s;
+# the same with only 3 markers in 100-item vectors: 331 s for the model alone, > 400 s for owner_of). The iterator-chain logic under
 # test (bucket skipping, start offset only in the first bucket/item, id arithmetic with IDS_IN_BUCKET = 3200) does not
 # depend on the vector length; the length is what is bounded.
 cd "$(dirname "$0")"
